@@ -52,8 +52,10 @@ def _work_generic(args):
 
 
 # ---------------------------------------------------------------- token header shapes
-ALPHA = [(1, "f"), (0, "function"), (2, "("), (2, ")"), (2, "{"), (7, ";")]
-ALPHA_ARROW = [(1, "f"), (3, "="), (2, "("), (2, ")"), (2, "=>"), (0, "const"), (0, "async"), (7, ";")]
+# (7, "(") / (7, ")"): tokens that are NOT punctuation but whose text is a parenthesis (the content of the string literals
+# "(" and ")" as the Python and Java lexers emit it): they are ordinary tokens for Balanced
+ALPHA = [(1, "f"), (0, "function"), (2, "("), (2, ")"), (2, "{"), (7, ";"), (7, "("), (7, ")")]
+ALPHA_ARROW = [(1, "f"), (3, "="), (2, "("), (2, ")"), (2, "=>"), (0, "const"), (0, "async"), (7, ";"), (7, "(")]
 
 SHAPES = {   # name -> (codelimit expression builder, Gallina text, shape description for the independent runner, alphabet)
 }
@@ -67,7 +69,7 @@ def _mk_shapes():
     from codelimit.common.token_matching.predicate.Name import Name
     from codelimit.common.token_matching.predicate.Operator import Operator
     from codelimit.common.token_matching.predicate.Symbol import Symbol
-    bal = "Atom (PBalanced (PValue [40]) (PValue [41]))"
+    bal = "Atom (PBalanced (PSymbol [40]) (PSymbol [41]))"
     return {
         "name groups": (lambda: [Name(), OneOrMore(Balanced("(", ")"))],
                         f"[Atom PName; Plus [{bal}]]", [("name",), ("groups",)], ALPHA),
@@ -112,15 +114,15 @@ def greedy_shape(shape, toks, i):
             else:
                 return None
         elif el[0] == "groups":
-            if not (pos < n and toks[pos][1] == "("):
+            if not (pos < n and toks[pos] == (2, "(")):
                 return None
-            while pos < n and toks[pos][1] == "(":
+            while pos < n and toks[pos] == (2, "("):
                 depth = 1
                 pos += 1
                 while pos < n and depth > 0:
-                    if toks[pos][1] == "(":
+                    if toks[pos] == (2, "("):
                         depth += 1
-                    elif toks[pos][1] == ")":
+                    elif toks[pos] == (2, ")"):
                         depth -= 1
                     pos += 1
                 if depth > 0:          # input ended inside a group
@@ -214,7 +216,8 @@ def run(tier, seed, replay=None):
         tlen = 6 if tier == "quick" else 8
         jobs = []
         for name, (_, _, _, alpha) in shapes.items():
-            ws = G.all_words(alpha, tlen if len(alpha) <= 6 else tlen - 1)
+            # the first six letters exhaustively to length tlen, the whole alphabet to length tlen - 1
+            ws = G.all_words(alpha[:6], tlen) + [w for w in G.all_words(alpha, tlen - 1) if any(x in alpha[6:] for x in w)]
             for k in range(0, len(ws), 2000):
                 jobs.append((name, ws[k:k + 2000]))
         # long random sequences with planted nested groups
